@@ -79,14 +79,14 @@ Section MatcherPOR.
     - apply ah_base. eapply Q_trans; eassumption.
     - destruct (Q_bwd_eager u s a s1 Hgu Hgs Hq0 He Hs) as [a' [u1 [He' [Hs' Hq1]]]].
       apply (ah_step u a' u1 s' He' Hs').
-      apply IH; [eapply good_step; eassumption | eapply good_step; eassumption | exact Hq1].
+      apply IH; [exact (good_step u a' u1 Hgu Hs') | exact (good_step s a s1 Hgs Hs) | exact Hq1].
   Qed.
 
   Lemma ahead_trans s s' : ahead s s' -> forall s'', good s -> good s' -> ahead s' s'' -> ahead s s''.
   Proof.
     induction 1 as [s s' Hq | s a s1 s' He Hs Hah IH]; intros s'' Hg Hg' Hah2.
     - exact (ahead_Q_l s' s'' Hah2 s Hg Hg' Hq).
-    - apply (ah_step s a s1 s'' He Hs). apply IH; [eapply good_step; eassumption | exact Hg' | exact Hah2].
+    - apply (ah_step s a s1 s'' He Hs). apply IH; [exact (good_step s a s1 Hg Hs) | exact Hg' | exact Hah2].
   Qed.
 
   (* one step of the model against a state that is ahead *)
@@ -98,15 +98,15 @@ Section MatcherPOR.
     - destruct (Q_fwd s s' l t Hg Hg' Hq Hst) as [[Hv Hq']|[l' [t' [Hv [Hs' Hq']]]]].
       + left. split; [exact Hv | apply ah_base; exact Hq'].
       + right. exists l', t'. split; [exact Hv|]. split; [exact Hs' | apply ah_base; exact Hq'].
-    - assert (Hg1 : good s1) by (eapply good_step; eassumption).
-      assert (Hgt : good t) by (eapply good_step; eassumption).
+    - assert (Hg1 : good s1) by (exact (good_step s a s1 Hg Hs)).
+      assert (Hgt : good t) by (exact (good_step s l t Hg Hst)).
       destruct (diamond s a s1 l t Hg He Hs Hst) as [->|[[u [Hu1 [Hu2 Het]]]|[Hv [u [Hu2 [Het Hqu]]]]]].
       + left. split; [eapply eager_vis; exact He|]. rewrite Hs in Hst. inversion Hst; subst t. exact Hah.
       + destruct (IH Hg1 Hg' l u Hu1) as [[Hv Hau]|[l' [t' [Hv [Hs' Hau]]]]].
         * left. split; [exact Hv | exact (ah_step t a u s' Het Hu2 Hau)].
         * right. exists l', t'. split; [exact Hv|]. split; [exact Hs' | exact (ah_step t a u t' Het Hu2 Hau)].
       + left. split; [exact Hv|]. apply (ah_step t a u s' Het Hu2).
-        apply (ahead_Q_l s1 s' Hah u); [eapply good_step; eassumption | exact Hg1 | exact Hqu].
+        apply (ahead_Q_l s1 s' Hah u); [exact (good_step t a u Hgt Hu2) | exact Hg1 | exact Hqu].
   Qed.
 
   Definition red_closed (S : list St) : Prop :=
@@ -152,12 +152,12 @@ Section MatcherPOR.
     destruct (labels_red s' l t' Hg Hv Hst) as [[a0 [s1 [Hl0 [He Hs1]]]]|[l0 [t0 [Hl0 [Hv0 [Hs0 Hq0]]]]]].
     - assert (Hva : vis a0 = None) by (eapply eager_vis; exact He).
       assert (Hin1 : In (canon s1) S) by (apply (HS s' _ Hin); eapply in_rsucc_tau; eassumption).
-      assert (Hg1 : good s1) by (eapply good_step; eassumption).
-      assert (Hgt : good t') by (eapply good_step; eassumption).
+      assert (Hg1 : good s1) by (exact (good_step s' a0 s1 Hg Hs1)).
+      assert (Hgt : good t') by (exact (good_step s' l t' Hg Hst)).
       destruct (diamond s' a0 s1 l t' Hg He Hs1 Hst) as [->|[[u [Hu1 [Hu2 Het]]]|[_ [u [Hu2 [Het Hqu]]]]]].
       + exists (canon s1). split; [exact Hin1|]. rewrite Hs1 in Hst. inversion Hst; subst t'.
         apply ah_base. apply Q_canon.
-      + assert (Hgu : good u) by (eapply good_step; eassumption).
+      + assert (Hgu : good u) by (exact (good_step t' a0 u Hgt Hu2)).
         destruct (Q_fwd s1 (canon s1) l u Hg1 (good_canon s1 Hg1) (Q_canon s1) Hu1)
           as [[_ Hq']|[l' [u' [Hv' [Hs' Hq']]]]].
         * exists (canon s1). split; [exact Hin1|]. apply (ah_step t' a0 u _ Het Hu2). apply ah_base. exact Hq'.
@@ -177,7 +177,7 @@ Section MatcherPOR.
   Lemma good_mstep s l s' : good s -> mstep s l = Some s' -> good s'.
   Proof.
     unfold mstep. intros Hg Hm. destruct (step s l) as [s1|] eqn:E; [|discriminate Hm].
-    inversion Hm; subst s'. apply good_canon. eapply good_step; eassumption.
+    inversion Hm; subst s'. apply good_canon. exact (good_step s l s1 Hg E).
   Qed.
 
   Lemma good_succ_tau s s' : good s -> In s' (rsucc_tau s) -> good s'.
@@ -212,7 +212,7 @@ Section MatcherPOR.
     induction ls as [|l ls IH]; intros evs ss s s' sf Hc Hal Hgs Hg Hin Hah Hr Ht.
     - simpl in Ht. subst evs. simpl. intros E. rewrite E in Hin. destruct Hin.
     - simpl in Hr. destruct (step s l) as [t|] eqn:Hq; [|discriminate Hr].
-      assert (Hgt : good t) by (eapply good_step; eassumption).
+      assert (Hgt : good t) by (exact (good_step s l t Hg Hq)).
       simpl in Ht.
       destruct (path s s' Hah Hg (Hgs s' Hin) l t Hq) as [[Hv Hat]|[l' [t' [Hv' [Hq' Hat]]]]].
       + rewrite Hv in Ht. apply (IH evs ss t s' sf); assumption.
